@@ -28,6 +28,60 @@ def load(pvl, reader, text, parser=None, cpu=30):
         return (type(e).__name__, e)
 
 
+def interfere(pvl, reader, text, rng):
+    """A load of the same text through a *differently configured* parser
+    (another real-number class and quantity class, container classes of the
+    caller, or another dialect), result thrown away.  Anything such a call
+    parks outside its own instances (module- or class-level memos keyed too
+    coarsely) shows in the judged load that follows.  Returns what was done."""
+    import decimal
+    import fractions
+    P, G, D = pvl.parser, pvl.grammar, pvl.decoder
+    how = rng.choice(("decimal", "fraction", "other-dialect", "classes"))
+    try:
+        with common.cpu_limit(30):
+            if how in ("decimal", "fraction"):
+                rc = decimal.Decimal if how == "decimal" else fractions.Fraction
+
+                class Q2(tuple):
+                    def __new__(cls, value, units):
+                        return tuple.__new__(cls, (value, units))
+                kw = dict(real_cls=rc, quantity_cls=Q2)
+                if reader == "PVL":
+                    p = P.PVLParser(grammar=G.PVLGrammar(), decoder=D.PVLDecoder(**kw))
+                elif reader == "ODL":
+                    p = P.ODLParser(grammar=G.ODLGrammar(), decoder=D.ODLDecoder(**kw))
+                elif reader == "PDS3":
+                    p = P.ODLParser(grammar=G.PDSGrammar(),
+                                    decoder=D.ODLDecoder(grammar=G.PDSGrammar(), **kw))
+                elif reader == "ISIS":
+                    g = G.ISISGrammar()
+                    p = P.OmniParser(grammar=g, decoder=D.OmniDecoder(grammar=g, **kw))
+                else:
+                    p = P.OmniParser(decoder=D.OmniDecoder(**kw))
+            elif how == "other-dialect":
+                other = rng.choice([r for r in gt.READERS if r != reader])
+                p = strict_parser(pvl, other)
+            else:
+                class M2(pvl.collections.PVLModule):
+                    pass
+
+                class G2(pvl.collections.PVLGroup):
+                    pass
+
+                class O2(pvl.collections.PVLObject):
+                    pass
+                base = strict_parser(pvl, reader)
+                p = type(base)(grammar=base.grammar, decoder=base.decoder,
+                               module_class=M2, group_class=G2, object_class=O2)
+            pvl.loads(text, parser=p)
+    except common.CaseTimeout:
+        raise
+    except Exception:
+        pass
+    return how
+
+
 def sep_class(s):
     if s == "":
         return "empty"
